@@ -54,6 +54,8 @@ CTYPE = {
     "X": "u32",  # the generic base is instantiated with X = u32
     "Self::Ret": "InnerBox",
     "&mut InnerBox<'static>": "&mut InnerBox",
+    # a payload box: the pointee is part of the C interface
+    "CBox<'static, u32>": "CBox<u32>", "CBox<'static, u64>": "CBox<u64>", "CBox<'static, Pair>": "CBox<Pair>",
 }
 
 
@@ -80,6 +82,7 @@ ARG_REPL = {
     "CIterator<u32>": ["CIterator<u64>", "CIterator<Pair>", "OpaqueCallback<u32>"],
     "&[u32]": ["&[u64]", "&[Pair]"],
     "Option<u32>": ["Option<u64>", "Option<Pair>"],
+    "CBox<'static, u32>": ["CBox<'static, u64>", "CBox<'static, Pair>", "u32"],
 }
 RET_REPL = {
     None: ["u64"],
@@ -92,6 +95,7 @@ RET_REPL = {
     "Self::Ret": [],
     "Result<u32, ()>": ["Result<u64, ()>", "Result<Pair, ()>", "Result<u32, u8>"],
     "Option<u32>": ["Option<u64>", "Option<Pair>"],
+    "CBox<'static, u32>": ["CBox<'static, u64>", "CBox<'static, Pair>"],
 }
 
 
@@ -223,6 +227,8 @@ BASES = [
     ("grp_res", True, Def([Trait("Ta", [Meth("a0", "&self", [("a", "&[u32]")], "Result<u32, ()>")]),
                            Trait("Tb", [Meth("b0", "&self", [("a", "&[u32]")], "Result<u32, ()>")])],
                           group=("Grp", ["Ta"], ["Tb"]))),
+    ("boxed", True, Def([Trait("Tr", [Meth("m0", "&mut self", [("a", "CBox<'static, u32>")], "u32"),
+                                      Meth("m1", "&self", [], "CBox<'static, u32>")])], main="Tr")),
     ("super_send", False, one("m0", "&self", [("a", "u64")], "u64", supers="Send")),
     ("grp5", False, Def([simple_trait("Ta", "a0"), simple_trait("Tb", "b0"), simple_trait("Tc", "c0"),
                          simple_trait("Td", "d0"), simple_trait("Te", "e0")],
